@@ -69,7 +69,8 @@ def make_crate(dst, skip_modules=()):
     """scratch copy of /repo (sources only) with the harness modules appended"""
     shutil.copytree(os.path.join(REPO, 'src'), os.path.join(dst, 'src'))
     for f in ('Cargo.toml', 'Cargo.lock'):
-        shutil.copy(os.path.join(REPO, f), os.path.join(dst, f))
+        if os.path.exists(os.path.join(REPO, f)):
+            shutil.copy(os.path.join(REPO, f), os.path.join(dst, f))
     for d in ('benches', 'examples', 'tests'):
         if os.path.isdir(os.path.join(REPO, d)):
             shutil.copytree(os.path.join(REPO, d), os.path.join(dst, d))
